@@ -43,6 +43,7 @@ pub enum Act {
     Deliver(u8, MsgId),
     Timer(u8),
     Byz(MsgId),
+    ByzDeliver(u8, MsgId),
 }
 
 #[derive(Clone, PartialEq, Eq, Hash, Debug)]
@@ -170,6 +171,10 @@ impl Search {
             id: SEARCH_ID.fetch_add(1, Ordering::Relaxed),
             cfg,
         }
+    }
+
+    pub fn id(&self) -> u64 {
+        self.id
     }
 
     fn pid(&self, m: MsgId, dst: u8) -> PId {
@@ -354,6 +359,7 @@ impl Search {
             Act::Deliver(i, m) => format!("deliver to n{}: {}", i, self.uni.msg(*m).desc),
             Act::Timer(i) => format!("timer expires at n{}", i),
             Act::Byz(m) => format!("byzantine n{} creates {}", self.cfg.byz.unwrap_or(9), self.uni.msg(*m).desc),
+            Act::ByzDeliver(i, m) => format!("byzantine n{} creates and sends to n{}: {}", self.cfg.byz.unwrap_or(9), i, self.uni.msg(*m).desc),
         }
     }
 
@@ -472,17 +478,38 @@ impl Search {
         }
         if let Some(_b) = self.cfg.byz {
             if g.k_used < self.cfg.k_budget {
-                for m in byz::menu(self, g) {
-                    self.transitions.fetch_add(1, Ordering::Relaxed);
+                // A creation commutes with everything before its first delivery (the pool only
+                // grows, so whatever is creatable now stays creatable): it is explored only
+                // fused with its first delivery.
+                for &m in byz::menu(self, g).iter() {
                     let p = self.pid(m, 255);
                     if g.has(p) {
                         continue;
                     }
-                    let mut s = g.clone();
-                    s.set(p);
-                    s.k_used += 1;
-                    if let Some(r) = self.insert(&s, gref, Act::Byz(m)) {
-                        out.push((s, r));
+                    if self.uni.msg(m).round > self.cfg.max_round {
+                        continue;
+                    }
+                    for &i in &self.cfg.honest {
+                        let lid = g.locals[i];
+                        let tr = self.ltrans(lid, Ev::Deliver(m));
+                        self.transitions.fetch_add(1, Ordering::Relaxed);
+                        if tr.next == lid && tr.out.iter().all(|q| g.has(*q)) {
+                            continue; // no effect on i: creating it now is pointless
+                        }
+                        let mut s = g.clone();
+                        s.set(p);
+                        s.k_used += 1;
+                        s.locals[i] = tr.next;
+                        for q in &tr.out {
+                            s.set(*q);
+                        }
+                        let act = Act::ByzDeliver(i as u8, m);
+                        if let Some(r) = self.insert(&s, gref, act) {
+                            if tr.next != lid {
+                                self.check_agreement(&s, i, gref, act);
+                            }
+                            out.push((s, r));
+                        }
                     }
                 }
             }
@@ -644,7 +671,7 @@ impl Search {
         for (k, act) in path.iter().enumerate() {
             let (expected, _, _) = self.state(refs[k + 1]);
             match act {
-                Act::Deliver(i, m) => {
+                Act::Deliver(i, m) | Act::ByzDeliver(i, m) => {
                     let ln = live.get_mut(&(*i as usize)).unwrap();
                     let res = ln.apply(&self.uni, Ev::Deliver(*m));
                     cur.insert(*i as usize, self.locals.intern(res.key, || ln.history.clone()));
